@@ -105,15 +105,35 @@ inductive LeftR where
   | fuel           -- the model ran out of fuel (not reachable for validated models, see `w1Rel`)
   deriving Repr
 
+def LeftR.isFuel : LeftR → Bool
+  | .fuel => true
+  | _ => false
+
+def LeftR.isSetupErr : LeftR → Bool
+  | .setupErr => true
+  | _ => false
+
+def LeftR.chan? : LeftR → Option (Chan String)
+  | .chan c _ => some c
+  | _ => none
+
+def LeftR.sw : LeftR → Bool
+  | .chan _ s => s
+  | _ => false
+
 def LeftR.combine (rs : List LeftR) (op : List (Chan String) → Option (Chan String)) : LeftR :=
-  if rs.any (fun r => match r with | .fuel => true | _ => false) then .fuel
-  else if rs.any (fun r => match r with | .setupErr => true | _ => false) then .setupErr
+  if rs.any LeftR.isFuel then .fuel
+  else if rs.any LeftR.isSetupErr then .setupErr
   else
-    let cs := rs.filterMap (fun r => match r with | .chan c _ => some c | _ => none)
-    let sw := rs.any (fun r => match r with | .chan _ s => s | _ => false)
-    match op cs with
-    | some c => .chan c sw
+    match op (rs.filterMap LeftR.chan?) with
+    | some c => .chan c (rs.any LeftR.sw)
     | none => .fuel
+
+/-- `fastPathOperationSetup(…, fastPathDifference, base, subtract)`: `BaseIndex = 0`, `DifferenceIndex = 1` -/
+def diffOp (thr : Nat) (cs : List (Chan String)) : Option (Chan String) :=
+  match cs with
+  | [cb, csub] => fastPathDifference thr 0 1 cb csub
+  | _ => none
 
 /-- `fastPathRewrite(req{object type typ, relation rel}, rewrite)` -/
 def leftChan (w : World) (cfg : Cfg) (typ : String) : Nat → String → Rewrite → LeftR
@@ -129,10 +149,7 @@ def leftChan (w : World) (cfg : Cfg) (typ : String) : Nat → String → Rewrite
     | .union cs => LeftR.combine (cs.map (leftChan w cfg typ fuel rel)) (fastPathUnion cfg.thr)
     | .inter cs => LeftR.combine (cs.map (leftChan w cfg typ fuel rel)) (fastPathIntersection cfg.thr)
     | .diff b s =>
-      LeftR.combine [leftChan w cfg typ fuel rel b, leftChan w cfg typ fuel rel s]
-        (fun cs => match cs with
-          | [cb, csub] => fastPathDifference cfg.thr 0 1 cb csub
-          | _ => none)
+      LeftR.combine [leftChan w cfg typ fuel rel b, leftChan w cfg typ fuel rel s] (diffOp cfg.thr)
 
 def leftFuel : Nat := 64
 
@@ -191,7 +208,7 @@ structure CState where
   rightOpen : Bool := true
   leftSet : List String := []
   rightSet : List String := []
-  lastErr : Option Ans := none
+  lastErr : Bool := false       -- `lastErr != nil` (only handler errors are remembered here)
   ctxErr : Bool := false
   deriving Repr
 
@@ -204,9 +221,9 @@ def consumeIter (st : CState) : List String → CState × Bool
 
 /-- `ConsumerLoop`.  `none` = the schedule ended before the loop did. -/
 def consumeLoop : List Pick → CState → Option Ans
-  | [], st => if st.leftOpen || st.rightOpen then none else some (match st.lastErr with | some e => e | none => .F)
+  | [], st => if st.leftOpen || st.rightOpen then none else some (if st.lastErr then .E else .F)
   | p :: sched, st =>
-    if !(st.leftOpen || st.rightOpen) then some (match st.lastErr with | some e => e | none => .F)
+    if !(st.leftOpen || st.rightOpen) then some (if st.lastErr then .E else .F)
     else match p with
       | .cancel => consumeLoop sched { st with ctxErr := true }
       | .ctxDone =>
@@ -217,17 +234,17 @@ def consumeLoop : List Pick → CState → Option Ans
         | [] =>                                                 -- `!ok`
           let st' := { st with leftOpen := false }
           if st.leftSet.isEmpty then
-            some (if st.ctxErr then .cancelled else match st.lastErr with | some e => e | none => .F)
+            some (if st.ctxErr then .cancelled else if st.lastErr then .E else .F)
           else consumeLoop sched st'
         | .err :: _ => some .E                                  -- `lastErr = msg.Err; break ConsumerLoop`
         | .iter it :: q =>
           let (st1, hit) := consumeIter { st with leftQ := q } it.items
           if hit then some .T
-          else consumeLoop sched (if it.failAtEnd then { st1 with lastErr := some .E } else st1)
+          else consumeLoop sched (if it.failAtEnd then { st1 with lastErr := true } else st1)
       | .right =>
         match st.rightQ with
         | [] =>
-          if st.rightErr then consumeLoop sched { st with rightErr := false, lastErr := some .E }   -- `lastErr = msg.err; continue`
+          if st.rightErr then consumeLoop sched { st with rightErr := false, lastErr := true }   -- `lastErr = msg.err; continue`
           else consumeLoop sched { st with rightOpen := false }
         | u :: q =>
           let st' := { st with rightQ := q, rightSet := u :: st.rightSet }
@@ -281,12 +298,11 @@ structure Result where
   deriving Repr
 
 def resultOf (lefts : List LeftR) (right : Right) : Result :=
-  if lefts.any (fun r => match r with | .fuel => true | _ => false) then { answers := [], tainted := false }
-  else if lefts.any (fun r => match r with | .setupErr => true | _ => false) then { answers := [.E], tainted := false }
+  if lefts.any LeftR.isFuel then { answers := [], tainted := false }
+  else if lefts.any LeftR.isSetupErr then { answers := [.E], tainted := false }
   else
-    let cs := lefts.filterMap (fun r => match r with | .chan c _ => some c | _ => none)
-    let sw := lefts.any (fun r => match r with | .chan _ s => s | _ => false)
-    { answers := answers cs right, tainted := sw || (right.sawErr && !right.passed.isEmpty) }
+    { answers := answers (lefts.filterMap LeftR.chan?) right,
+      tainted := lefts.any LeftR.sw || (right.sawErr && !right.passed.isEmpty) }
 
 def weight2Userset (w : World) (cfg : Cfg) (o r : String) (x : Restr) : Result :=
   resultOf (usersetLefts w cfg x) (usersetRight w o r x)
